@@ -8,7 +8,7 @@ usage: confirm_seed.py <Cxx> [2|""] [name]   (reads $SEED_BASE/<Cxx>/out/..., de
        name = directory under /verif/seeded, default <Cxx>-a / <Cxx>-b; never overwrites an existing seed)"""
 import json, os, re, shutil, subprocess, sys
 
-W = "/tmp/seedconf"
+W = os.environ.get("SEEDCONF_W", "/tmp/seedconf")
 ENV = dict(os.environ, CARGO_TARGET_DIR=W + "/target", CARGO_NET_OFFLINE="true")
 
 def sh(cmd, cwd=W, timeout=1800):
